@@ -245,14 +245,7 @@ Theorem iter_consensus_states_skips_others name h :
 Proof.
   intro Vn. pose proof (valid_chain_name_no_sep _ Vn) as H.
   rewrite full_client_state_key_split, !(iter_consensus_states_on_client_key _ _ H).
-  repeat split.
-  - reflexivity.
-  - destruct (parse_consensus_state_key (tm_processed_time_key h)) eqn:E; [|reflexivity].
-    apply parse_consensus_state_key_length in E. exfalso. revert E.
-    unfold tm_processed_time_key, height_args. rewrite shape_processed_time.
-    cbn [render render_item get_n nth_error]. rewrite !app_length, !be8_length. cbn. lia.
-  - unfold tm_iteration_key, height_args. rewrite shape_iteration.
-    cbn [render render_item get_n nth_error]. reflexivity.
+  split; [reflexivity | split; reflexivity].
 Qed.
 
 (** [IterateClients] reads every client state key back and skips every consensus
